@@ -54,6 +54,10 @@ Translated(s, ev) == \E i \in 1..Len(ev.s) : Translate(ActiveTable(s), ev.s[i]) 
 \* a translated draw whose placement is the plain case (every translated character
 \* narrow, replace mode, not at the pending-wrap column): what is left to judge is
 \* the translation itself
+\* a draw containing a code point above 255 (none of them combining): "code points above 255 pass through untranslated"
+HighPlain(s, ev) ==
+  /\ \E i \in 1..Len(ev.s) : ev.s[i] > 255
+  /\ \A i \in 1..Len(ev.s) : ~Comb(ev.wm, ev.s[i])
 SimpleDraw(s, ev) ==
   /\ s.x < s.C /\ IRM \notin s.modes
   /\ \A i \in 1..Len(ev.s) : W(ev.wm, Translate(ActiveTable(s), ev.s[i])) = 1
@@ -99,9 +103,9 @@ InScope(id, pre, ev) ==
     [] id = "C14" -> ev.op \in C14Ops
     [] id = "C15" -> ev.op \in C15Ops
     [] id = "C16" -> ev.op \in C16Ops
-    [] id = "C18" -> ev.op \in C18Ops
+    [] id = "C18" -> ev.op \in C18Ops \/ ev.op = "ris"       \* "initially and after reset": the stops RIS leaves
     [] id = "C19" -> ev.op \in C19Ops
-    [] id = "C20" -> ev.op \in C20Ops \/ (ev.op = "draw" /\ Translated(pre, ev) /\ SimpleDraw(pre, ev))
+    [] id = "C20" -> ev.op \in C20Ops \/ (ev.op = "draw" /\ (Translated(pre, ev) \/ HighPlain(pre, ev)) /\ SimpleDraw(pre, ev))
     [] id = "ALL" -> ev.op \in KnownOps \ {"display"}
     [] OTHER -> FALSE
 
@@ -167,7 +171,8 @@ Bad_C10(pre, ev, post, disp) ==
         THEN {} ELSE {"display"})
 
 Bad(id, pre, ev, post, disp) ==
-  CASE id \in DetProps -> Bad_Det(pre, ev, post)
+  CASE id = "C18" /\ ev.op = "ris" -> DiffFields(Apply(pre, ev), post, {"tabs"})    \* (everything else RIS does is C15's)
+    [] id \in DetProps -> Bad_Det(pre, ev, post)
     [] id = "C04" -> Bad_C04(pre, ev, post)
     [] id = "C06" -> Bad_C06(pre, ev, post)
     [] id = "C10" -> Bad_C10(pre, ev, post, disp)
